@@ -21,12 +21,12 @@ var propSpecs = []propSpec{
 	{
 		id: "C01",
 		runs: []runSpec{
-			{dir: "mux", entry: "ZZC01", quick: seq(0, []int{0, 1, 2, 3, 4, 5, 6, 7, 8, 9, 10, 11, 12}, 8), thorough: seq(0, []int{0, 1, 2, 3, 4, 5, 6, 7, 8, 9, 10, 11, 12}, 10)},
+			{dir: "mux", entry: "ZZC01", quick: seq(0, []int{0, 1, 2, 3, 4, 5, 6, 7, 8, 9, 10, 11, 12, 13, 14, 15, 16}, 8), thorough: seq(0, []int{0, 1, 2, 3, 4, 5, 6, 7, 8, 9, 10, 11, 12, 13, 14, 15, 16}, 10)},
 		},
 		covers:  []string{"404", "405", "options", "options-star", "served", "served-with-params"},
-		bounds:  "request path: every byte string of length <= 8 (all 256 byte values); method: each of GET HEAD POST OPTIONS DELETE PUT TRACE \"\" BOGUS plus every string of <= 3 free bytes; 13 route-table histories (Handle/Remove/Clean/Prefix.Clean, <= 10 operations) over literal, named, regexp, interceptor, ignored-name, endpoint and >=5-sibling shapes; interceptors digit/word/any and an arbitrary user-defined interceptor (an uninterpreted predicate: the verdict holds for every pure interceptor function; a counterexample carries the function table of the model)",
+		bounds:  "request path: every byte string of length <= 8 (all 256 byte values); method: each of GET HEAD POST OPTIONS DELETE PUT TRACE \"\" BOGUS plus every string of <= 3 free bytes; 17 route-table histories (Handle/Remove/Clean/Prefix.Clean, <= 10 operations) over literal, named, regexp, interceptor, ignored-name, endpoint and >=5-sibling shapes; interceptors digit/word/any and an arbitrary user-defined interceptor (an uninterpreted predicate: the verdict holds for every pure interceptor function; a counterexample carries the function table of the model)",
 		boundsT: "as quick, request path length <= 10",
-		outside: "longer paths; route tables other than the 8 listed histories; regexp rules other than \\d+ [a-z]+ [a-c]+ \\w*; interceptor functions with side effects; patterns with braces in literal text; reconstruction of the text consumed by '-' (ignored) parameters",
+		outside: "longer paths; route tables other than the 8 listed histories; regexp rules other than \\d+ [a-z]+ [a-c]+ \\w* a|b a|bc; interceptor functions with side effects; patterns with braces in literal text; for patterns with '-' (ignored) parameters the path is matched against an anchored expression built from the pattern instead of being reconstructed",
 		assume:  []string{"patterns are well-formed"},
 		stubs:   stdStubs,
 	},
@@ -34,11 +34,11 @@ var propSpecs = []propSpec{
 		id: "C02",
 		runs: []runSpec{
 			{dir: "mux", entry: "ZZC02",
-				quick:    []int{8, 108, 208, 308, 408, 508, 608, 708, 808, 908, 1008, 1108, 1208, 1308, 1408, 1508, 1608, 1708, 1908, 2008, 2108, 2308, 2408, 2508, 2608, 2708, 2808, 2908, 3008},
-				thorough: []int{10, 110, 210, 310, 410, 510, 610, 710, 810, 910, 1010, 1110, 1210, 1310, 1410, 1510, 1610, 1710, 1806, 1910, 2010, 2110, 2208, 2310, 2410, 2510, 2610, 2710, 2810, 2910, 3010}},
+				quick:    []int{8, 108, 208, 308, 408, 508, 608, 708, 808, 908, 1008, 1108, 1208, 1308, 1408, 1508, 1608, 1708, 1908, 2008, 2108, 2308, 2408, 2508, 2608, 2708, 2808, 2908, 3008, 3108, 3208, 3308},
+				thorough: []int{10, 110, 210, 310, 410, 510, 610, 710, 810, 910, 1010, 1110, 1210, 1310, 1410, 1510, 1610, 1710, 1806, 1910, 2010, 2110, 2208, 2310, 2410, 2510, 2610, 2710, 2810, 2910, 3010, 3110, 3210, 3310}},
 		},
 		covers:  []string{"404", "matched", "matched-with-params"},
-		bounds:  "request path: every byte string of length <= 8; 29 add-only route tables (8 selections of 3-4 patterns from a 15-pattern pool plus a 6-literal-sibling bundle, each in two registration orders; 6 tables aimed at the first-byte index with a failing indexed literal, deep literal splits, one parameter with several suffixes, endpoint vs continuing parameters); reference = a resolver over the pattern strings that never builds a tree and returns the set of admissible outcomes",
+		bounds:  "request path: every byte string of length <= 8; 32 add-only route tables (8 selections of 3-4 patterns from a 15-pattern pool plus a 6-literal-sibling bundle, each in two registration orders; 6 tables aimed at the first-byte index with a failing indexed literal, deep literal splits, one parameter with several suffixes, endpoint vs continuing parameters); reference = a resolver over the pattern strings that never builds a tree and returns the set of admissible outcomes",
 		boundsT: "as quick with request path length <= 10, plus a table with four parameter kinds among >=5 children (length <= 6) and one with the three bundled interceptors at one position (length <= 8)",
 		outside: "longer paths; other tables; regexp rules whose alphabet overlaps the first byte of the literal that follows them; paths \"\" and \"*\"",
 		assume:  []string{"patterns are well-formed", "method GET only (method handling is C01/C03/C08)"},
@@ -47,10 +47,10 @@ var propSpecs = []propSpec{
 	{
 		id: "C03",
 		runs: []runSpec{
-			{dir: "mux", entry: "ZZC03", quick: []int{14, 24, 114, 124, 214, 224, 314, 324, 414, 424}, thorough: []int{15, 25, 35, 115, 125, 135, 215, 225, 235, 315, 325, 335, 415, 425, 435}},
+			{dir: "mux", entry: "ZZC03", quick: []int{14, 24, 114, 124, 214, 224, 314, 324, 414, 424, 514, 524}, thorough: []int{15, 25, 35, 115, 125, 135, 215, 225, 235, 315, 325, 335, 415, 425, 435, 515, 525, 535}},
 		},
 		covers:  []string{"history", "non-interference-checked"},
-		bounds:  "5 scenarios (an indexed parent with a handler-less branch that is pruned over two removals; six literal siblings + parameter sibling; five top-level routes not starting with '/'; parameters with several methods; interceptor/regexp/named at one position), every history of <= 2 operations from an 8-9 operation alphabet (Handle, Remove(pattern), Remove(pattern, methods), Clean, Prefix.Clean, Resource.Clean) after the scenario's setup; after the last step: Routes() vs model, witness requests of every pattern x 5 methods, and the same symbolic request (path <= 4 bytes, 5 methods) before and after the step",
+		bounds:  "6 scenarios (a live route that is a proper prefix of a cleaned prefix; an indexed parent with a handler-less branch that is pruned over two removals; six literal siblings + parameter sibling; five top-level routes not starting with '/'; parameters with several methods; interceptor/regexp/named at one position), every history of <= 2 operations from an 8-9 operation alphabet (Handle, Remove(pattern), Remove(pattern, methods), Clean, Prefix.Clean, Resource.Clean) after the scenario's setup; after the last step: Routes() vs model, witness requests of every pattern x 5 methods, and the same symbolic request (path <= 4 bytes, 5 methods) before and after the step",
 		boundsT: "as quick with histories of <= 3 operations and symbolic paths <= 5 bytes",
 		outside: "longer histories, other pattern pools, paths longer than the bound",
 		assume:  []string{"the non-interference clause is asserted for every request that was dispatched to a route the step does not name"},
@@ -59,10 +59,10 @@ var propSpecs = []propSpec{
 	{
 		id: "C04",
 		runs: []runSpec{
-			{dir: "mux", entry: "ZZC04", quick: []int{1, 2, 3, 101, 102, 103, 1001, 1002, 1003, 1101, 1102, 1103, 2001, 2002, 2003, 2102}, thorough: []int{1, 2, 3, 4, 101, 102, 103, 104, 1001, 1002, 1003, 1004, 1101, 1102, 1103, 1104, 2001, 2002, 2003, 2004, 2103}, mapRev: true},
+			{dir: "mux", entry: "ZZC04", quick: []int{1, 2, 3, 101, 102, 103, 1001, 1002, 1003, 1101, 1102, 1103, 2001, 2002, 2003, 2102, 3001, 3002, 3003}, thorough: []int{1, 2, 3, 4, 101, 102, 103, 104, 1001, 1002, 1003, 1004, 1101, 1102, 1103, 1104, 2001, 2002, 2003, 2004, 2103, 3001, 3002, 3003, 3004}, mapRev: true},
 		},
 		covers:  []string{"history", "options-allow", "405-allow"},
-		bounds:  "3 operation alphabets of 9-10 operations, the third after a 3-route setup with a split literal node (registrations that split nodes after methods were registered, removal of all / of single / of never-registered methods, Clean, Prefix.Clean with prefixes ending on a node boundary / inside a segment / on the parent, Any), every history of <= 3 operations, with and without WithTrace, both map iteration orders; after the last step, for every live pattern: Allow of OPTIONS and of 405 (read through the node captured by the builder), Node().Methods()/AllowHeader(), Routes(), for every request reaching the route (parameter values symbolic, <= 2 bytes); OPTIONS * on every state including the brand-new router",
+		bounds:  "4 operation alphabets of 8-10 operations, the third after a 3-route setup with a split literal node, the fourth (without WithTrace only) with TRACE registered by hand (registrations that split nodes after methods were registered, removal of all / of single / of never-registered methods / of one method named twice, Clean, Prefix.Clean with prefixes ending on a node boundary / inside a segment / on the parent, Any), every history of <= 3 operations, with and without WithTrace, both map iteration orders; after the last step, for every live pattern: Allow of OPTIONS and of 405 (read through the node captured by the builder), Node().Methods()/AllowHeader(), Routes(), for every request reaching the route (parameter values symbolic, <= 2 bytes); OPTIONS * on every state including the brand-new router",
 		boundsT: "as quick with histories of <= 4 operations",
 		outside: "longer histories, other pattern pools",
 		stubs:   stdStubs,
@@ -70,7 +70,7 @@ var propSpecs = []propSpec{
 	{
 		id: "C05",
 		runs: []runSpec{
-			{dir: "mux", entry: "ZZC05Req", quick: seq(0, []int{0, 1, 2, 3, 4, 5, 6, 7, 8, 9, 10, 11, 12}, 8), thorough: seq(0, []int{0, 1, 2, 3, 4, 5, 6, 7, 8, 9, 10, 11, 12}, 11)},
+			{dir: "mux", entry: "ZZC05Req", quick: seq(0, []int{0, 1, 2, 3, 4, 5, 6, 7, 8, 9, 10, 11, 12, 13, 14, 15, 16}, 8), thorough: seq(0, []int{0, 1, 2, 3, 4, 5, 6, 7, 8, 9, 10, 11, 12, 13, 14, 15, 16}, 11)},
 			{dir: "mux", entry: "ZZC05Grp", quick: []int{33}, thorough: []int{54}},
 			{dir: "mux", entry: "ZZC05Host", quick: []int{6}, thorough: []int{9}},
 			{dir: "mux", entry: "ZZC05Ver", quick: []int{6}, thorough: []int{10}},
@@ -78,7 +78,7 @@ var propSpecs = []propSpec{
 			{dir: "mux", entry: "ZZC05Rule", quick: []int{33, 152}, thorough: []int{43, 163}},
 		},
 		covers:  []string{"request", "group-request", "host-match", "version-match", "handle-registered", "handle-rejected", "rule-accepted", "rule-rejected", "rule-served"},
-		bounds:  "Router.ServeHTTP: path = every byte string <= 8 bytes (incl. \"\", \"*\", non-UTF-8), method = every byte string <= 4 bytes, on the 13 route-table histories of C01 (which include Remove/Clean/Prefix.Clean states); Group.ServeHTTP with Hosts, path-version, header-version and And matchers: Host <= 3 ASCII bytes, path <= 3 bytes, 5 methods, 6 Accept headers; Hosts.Match: Host <= 6 ASCII bytes on 9 domains after a Delete; path-version matcher: path <= 6 bytes; patterns: every byte string <= 6 bytes into CheckSyntax, URL, Router.URL (strict and not), Handle on an empty and on a populated router; regexp rules: every string of <= 3 symbols over {a ( ) | ? * \\ b} and of <= 5 symbols over {a ( ) | b} as the rule of /{id:rule} with and without a literal suffix - whatever Handle accepts must then serve every path of <= 2-3 bytes without a fault",
+		bounds:  "Router.ServeHTTP: path = every byte string <= 8 bytes (incl. \"\", \"*\", non-UTF-8), method = every byte string <= 4 bytes, on the 17 route-table histories of C01 (which include Remove/Clean/Prefix.Clean states); Group.ServeHTTP with Hosts, path-version, header-version and And matchers: Host <= 3 ASCII bytes, path <= 3 bytes, 5 methods, 6 Accept headers; Hosts.Match: Host <= 6 ASCII bytes on 9 domains after a Delete; path-version matcher: path <= 6 bytes; patterns: every byte string <= 6 bytes into CheckSyntax, URL, Router.URL (strict and not), Handle on an empty and on a populated router; regexp rules: every string of <= 3 symbols over {a ( ) | ? * \\ b} and of <= 5 symbols over {a ( ) | b} as the rule of /{id:rule} with and without a literal suffix - whatever Handle accepts must then serve every path of <= 2-3 bytes without a fault",
 		boundsT: "paths <= 11, Group host <= 5 / path <= 4, Hosts host <= 9, patterns <= 8 bytes",
 		outside: "longer inputs (the math.MaxInt16 segment limit is not reachable); Host bytes >= 0x80 (strings.ToLower is modelled for ASCII only); arbitrary Accept headers (mime.ParseMediaType runs natively on 6 concrete headers); panics raised by user handlers or interceptors",
 		assume:  []string{"regexp.Compile on a symbolic expression is an uninterpreted, consistent function of its bytes that never panics"},
@@ -90,9 +90,10 @@ var propSpecs = []propSpec{
 			{dir: "mux", entry: "ZZC08Head", quick: []int{3}, thorough: []int{3}},
 			{dir: "mux", entry: "ZZC08Hist", quick: []int{1, 2, 3}, thorough: []int{1, 2, 3, 4}, mapRev: true},
 			{dir: "mux", entry: "ZZC08Reg", quick: []int{7, 107}, thorough: []int{8, 108}},
+			{dir: "mux", entry: "ZZC08Rec", quick: []int{2}, thorough: []int{3}},
 		},
-		covers:  []string{"head-vs-get", "content-length", "history", "registered", "rejected"},
-		bounds:  "HEAD vs GET: every handler behaviour of <= 3 Write calls whose sizes are symbolic 64-bit ints in [0,300000] (decided by z3, not enumerated), with/without an explicit WriteHeader of a symbolic status in [100,599], 0-2 headers set before the response starts, parameter value <= 2 arbitrary bytes; histories: every sequence of <= 3 operations from 12 (Handle of GET/POST/DELETE, Remove with lists containing GET, HEAD, OPTIONS, \"\", POST) followed by 7 methods on 2 paths; registration: every method string of <= 7 bytes, with and without WithTrace",
+		covers:  []string{"head-vs-get", "content-length", "history", "registered", "rejected", "head-of-a-panicking-handler"},
+		bounds:  "HEAD vs GET: every handler behaviour of <= 3 Write calls whose sizes are symbolic 64-bit ints in [0,300000] (decided by z3, not enumerated), with/without an explicit WriteHeader of a symbolic status in [100,599], 0-2 headers set before the response starts, parameter value <= 2 arbitrary bytes; histories: every sequence of <= 3 operations from 12 (Handle of GET/POST/DELETE, Remove with lists containing GET, HEAD, OPTIONS, \"\", POST) followed by 7 methods on 2 paths; registration: every method string of <= 7 bytes, with and without WithTrace; HEAD of a route whose GET handler panics before writing, on routers with WithStatusRecovery / WithRecovery writing an error page",
 		boundsT: "histories of <= 4 operations, method strings <= 8 bytes",
 		outside: "header mutations after the response has started (net/http ignores them on GET as well); more than 3 writes; sizes above 300000; Content-Length after an explicit WriteHeader (documented as unsupported)",
 		assume:  []string{"the underlying ResponseWriter sends the header on the first Write or when the handler returns (net/http semantics), modelled by the harness writer"},
@@ -101,10 +102,10 @@ var propSpecs = []propSpec{
 	{
 		id: "C17",
 		runs: []runSpec{
-			{dir: "mux", entry: "ZZC17", quick: []int{2002, 12002, 22002, 32002, 122001, 222001, 312001, 422001}, thorough: []int{3003, 13003, 23003, 33003, 122002, 222002, 312002, 422002, 102002, 202002}},
+			{dir: "mux", entry: "ZZC17", quick: []int{2002, 12002, 22002, 32002, 42002, 112001, 122001, 222001, 312001, 422001, 442001}, thorough: []int{3003, 13003, 23003, 33003, 43003, 112002, 122002, 222002, 312002, 422002, 442002, 102002, 202002}},
 		},
 		covers:  []string{"accepted", "rejected"},
-		bounds:  "4 route tables, optionally after an earlier Handle that was rejected for its method (it may leave handler-less nodes behind); one Handle call with a pattern from a 16-pattern pool (live, name variants, '-' variants, rule variants, new, 6 malformed) and a method list of <= 2 entries from {GET, POST, HEAD, OPTIONS, unknown}, single-entry lists with every method string of <= 3 bytes; compared before/after a rejected call: Routes(), the Allow header of every live pattern (OPTIONS and 405), and the outcome of the same symbolic request (path <= 2 bytes x 3 methods); accept/reject clauses against an independent shape comparison",
+		bounds:  "5 route tables (one with a split literal node whose inner node is a candidate pattern), optionally after an earlier Handle that was rejected for its method (it may leave handler-less nodes behind); one Handle call with a pattern from a 17-pattern pool (live, name variants, '-' variants, rule variants, new, 6 malformed) and a method list of <= 2 entries from {GET, POST, HEAD, OPTIONS, unknown}, single-entry lists with every method string of <= 3 bytes; compared before/after a rejected call: Routes(), the Allow header of every live pattern (OPTIONS and 405), and the outcome of the same symbolic request (path <= 2 bytes x 4 methods incl. HEAD); accept/reject clauses against an independent shape comparison",
 		boundsT: "method lists of <= 3 entries, probe path <= 3 bytes",
 		outside: "longer method lists; other pools; effects of a rejected call on strict URL building",
 		stubs:   stdStubs,
@@ -116,7 +117,7 @@ var propSpecs = []propSpec{
 			{dir: "mux", entry: "ZZC09Grp", quick: []int{2, 3, 4, 5}, thorough: []int{2, 3, 4, 5, 6}},
 		},
 		covers:  []string{"program", "use-and-routes", "group-program", "group-router-A", "group-router-B"},
-		bounds:  "every program of <= 3 calls from 9 operations (Use with 1 or 2 middlewares, Handle with 2 route middlewares, Post without, Prefix with 2 + route middleware, nested Prefix.Prefix, Resource (GET with and POST without route middleware), Prefix.Resource, Any), with and without WithTrace and in both map iteration orders; every group program of <= 5 calls from 6 operations (Group.Use, Group.New, Group.Add of a router with its own Use and route, Handle, router Use, Prefix(\"\").Post); then every handler kind of every route (methods, HEAD, OPTIONS, 405, 404, OPTIONS *, TRACE, group not-found) is invoked and its middleware chain, factory arguments and the factory invocation count are compared with the documented order computed from the program text",
+		bounds:  "every program of <= 3 calls from 10 operations (two nested prefixes built from one caller-owned middleware slice with spare capacity, Use with 1 or 2 middlewares, Handle with 2 route middlewares, Post without, Prefix with 2 + route middleware, nested Prefix.Prefix, Resource (GET with and POST without route middleware), Prefix.Resource, Any), with and without WithTrace and in both map iteration orders; every group program of <= 5 calls from 6 operations (Group.Use, Group.New, Group.Add of a router with its own Use and route, Handle, router Use, Prefix(\"\").Post); then every handler kind of every route (methods, HEAD, OPTIONS, 405, 404, OPTIONS *, TRACE, group not-found) is invoked and its middleware chain, factory arguments and the factory invocation count are compared with the documented order computed from the program text",
 		boundsT: "programs of <= 4 calls, group programs of <= 6 calls",
 		outside: "longer programs; removal of routes between Use calls; this property has no data dimension: the verdict is an exhaustive bounded exploration of the real SSA by forking on operation selectors, the solver only confirms path feasibility",
 		stubs:   stdStubs,
@@ -128,7 +129,7 @@ var propSpecs = []propSpec{
 			{dir: "mux", entry: "ZZC10RT", quick: []int{8}, thorough: []int{10}},
 		},
 		covers:  []string{"non-empty-params", "strict-must-fail", "strict-must-succeed", "round-trip", "round-trip-with-params"},
-		bounds:  "14 patterns (7 live routes covering regexp, named, digit/word interceptors, ignored name, regexp + literal suffix; an inner tree node, an unregistered pattern, a prefix of a live route; 4 malformed classes) x every params map (each key present or absent with every value of <= 3 bytes, optional extra key, empty map) x strict/non-strict x 3 URL-domain settings; round trip: every request path of <= 8 bytes dispatched by a 9-route router, rebuilt with URL and strict Router.URL from the captured parameters",
+		bounds:  "18 patterns (8 live routes covering regexp in the middle and at the end, named, digit/word interceptors, ignored name, regexp + literal suffix; an inner tree node, a node whose methods were removed by name, an unregistered pattern, a prefix of a live route; 6 malformed forms) x every params map (each key present or absent with every value of <= 3 bytes, optional extra key, empty map) x strict/non-strict x 3 URL-domain settings; round trip: every request path of <= 8 bytes dispatched by a 9-route router, rebuilt with URL and strict Router.URL from the captured parameters",
 		boundsT: "values <= 4 bytes, round-trip paths <= 10 bytes",
 		outside: "other patterns; regexp rules with alternations whose leftmost-first match is shorter than a full match; Prefix.URL / Resource.URL (C19)",
 		stubs:   stdStubs,
@@ -163,7 +164,7 @@ var propSpecs = []propSpec{
 			{dir: "mux", entry: "ZZC13", quick: []int{44, 134, 234, 334}, thorough: []int{45, 145, 245, 345}},
 		},
 		covers:  []string{"router-accepts", "group-served", "group-404"},
-		bounds:  "4 groups of 3 routers whose matchers are built from path-version, Hosts (literal and parameterised domains), header-version, And, Or (nested) and nil; optional Remove of each router; a duplicate-name New; request: Host = every ASCII string of <= 3-4 bytes, path = every string of <= 4 bytes, Accept from a table of 6 headers; reference: independent matchers evaluated on the original request (first accepting router, rewritten path, matcher parameters), then that router alone on the rewritten request",
+		bounds:  "4 groups of 3 routers whose matchers are built from path-version, Hosts (literal and parameterised domains), header-version, And, Or (nested) and nil; optional Remove of each router, optionally followed by adding the same router object again with a nil matcher; a duplicate-name New; Router(name), Routers(), Routes(); request: Host = every ASCII string of <= 3-4 bytes, path = every string of <= 4 bytes, Accept from a table of 6 headers; reference: independent matchers evaluated on the original request (first accepting router, rewritten path, matcher parameters), then that router alone on the rewritten request",
 		boundsT: "Host <= 4, path <= 5 bytes",
 		outside: "other matcher combinations; arbitrary Accept headers; Host bytes >= 0x80; histories of Use after New",
 		stubs:   append(append([]string{}, stdStubs...), "strings.ToLower (ASCII), mime.ParseMediaType on concrete headers: the real function"),
@@ -205,11 +206,11 @@ var propSpecs = []propSpec{
 	{
 		id: "C18",
 		runs: []runSpec{
-			{dir: "mux", entry: "ZZC18", quick: append(seq(50, []int{0, 1, 2, 3, 4, 5, 6, 7, 8, 9, 10, 11, 12}, 6), seq(0, []int{0, 1, 2, 3, 4, 5, 6, 7, 8, 9, 10, 11, 12}, 6)...), thorough: append(seq(50, []int{0, 1, 2, 3, 4, 5, 6, 7, 8, 9, 10, 11, 12}, 9), seq(0, []int{0, 1, 2, 3, 4, 5, 6, 7, 8, 9, 10, 11, 12}, 9)...)},
+			{dir: "mux", entry: "ZZC18", quick: append(seq(50, []int{0, 1, 2, 3, 4, 5, 6, 7, 8, 9, 10, 11, 12, 13, 14, 15, 16}, 6), seq(0, []int{0, 1, 2, 3, 4, 5, 6, 7, 8, 9, 10, 11, 12, 13, 14, 15, 16}, 6)...), thorough: append(seq(50, []int{0, 1, 2, 3, 4, 5, 6, 7, 8, 9, 10, 11, 12, 13, 14, 15, 16}, 9), seq(0, []int{0, 1, 2, 3, 4, 5, 6, 7, 8, 9, 10, 11, 12, 13, 14, 15, 16}, 9)...)},
 			{dir: "trace", entry: "ZZC18Helper", quick: []int{0, 1, 2}, thorough: []int{0, 1, 2}},
 		},
 		covers:  []string{"trace-configured", "trace-not-configured", "dump-ok", "dump-error"},
-		bounds:  "TRACE request with every path of <= 6 bytes on the 13 table histories of C01 between two Use calls, with WithTrace (configured handler, exactly the Use middlewares with arguments TRACE/\"\"/router, no parameters, manual registration refused, TRACE in every Allow set incl. OPTIONS *) and without (404/405 per the documented resolution, TRACE registrable and then served); helper: httputil.DumpRequest nondeterministic (arbitrary error, or arbitrary dump of <= 3 bytes incl. HTML metacharacters), status 200, Content-Type read from the header snapshot taken at WriteHeader, body = html.EscapeString(dump), error passthrough, without body and with a body of undeclared and of declared length",
+		bounds:  "TRACE request with every path of <= 6 bytes on the 17 table histories of C01 between two Use calls, with WithTrace (configured handler, exactly the Use middlewares with arguments TRACE/\"\"/router, no parameters, manual registration refused, TRACE in every Allow set incl. OPTIONS *) and without (404/405 per the documented resolution, TRACE registrable and then served); helper: httputil.DumpRequest nondeterministic (arbitrary error, or arbitrary dump of <= 3 bytes incl. HTML metacharacters), status 200, Content-Type read from the header snapshot taken at WriteHeader, body = html.EscapeString(dump), error passthrough, without body and with a body of undeclared and of declared length",
 		boundsT: "paths <= 9 bytes",
 		outside: "the content of real request dumps (httputil.DumpRequest is stubbed; natively it is the real function)",
 		stubs:   append(append([]string{}, stdStubs...), "net/http/httputil.DumpRequest: arbitrary error or arbitrary <= 3 bytes, deterministic per request; html.EscapeString: byte-wise model of the five replacements"),
@@ -259,11 +260,12 @@ var propSpecs = []propSpec{
 			{dir: "mux", entry: "ZZC07Seq", quick: []int{1, 2}, thorough: []int{1, 2, 3}},
 			{dir: "mux", entry: "ZZC07Pool", quick: []int{5}, thorough: []int{7}},
 			{dir: "mux", entry: "ZZC07Nested", quick: []int{2}, thorough: []int{3}},
+			{dir: "mux", entry: "ZZC07Wide", quick: []int{2}, thorough: []int{3}},
 			{dir: "mux", entry: "ZZC07Par", quick: []int{0, 1, 2, 10, 12}, thorough: []int{0, 1, 2, 10, 12}},
 		},
-		covers:  []string{"foreign-activity", "pooled-request-served", "nested-request", "par-two-routers", "par-router-and-hosts", "par-build-and-serve", "par-requests"},
+		covers:  []string{"foreign-activity", "pooled-request-served", "nested-request", "after-a-wide-request", "par-two-routers", "par-router-and-hosts", "par-build-and-serve", "par-requests"},
 		race:    true,
-		bounds:  "sequential: a brand-new router (with/without WithTrace) is observed (OPTIONS * Allow, a 404, Routes(), Allow after one registration) before and after (and against the documented answers after) every sequence of <= 2 operations from 10 on other routers, a Hosts matcher and a Group; pooled contexts: two consecutive requests with symbolic paths <= 5 bytes on the backtracking table, optionally after a Group served (its own release path), and a handler that serves a nested request while its own is in flight; the engine also reports a pooled object that is released twice; concurrent (logical threads + happens-before monitor over every heap access): two routers registering/removing in parallel, a router and a Hosts matcher, one router being built and cleaned while another serves, two parallel requests with symbolic parameter values on one quiescent router with and without WithLock",
+		bounds:  "sequential: a brand-new router (with/without WithTrace) is observed (OPTIONS * Allow, a 404, Routes(), Allow after one registration) before and after (and against the documented answers after) every sequence of <= 2 operations from 10 on other routers, a Hosts matcher and a Group; pooled contexts: two consecutive requests with symbolic paths <= 5 bytes on the backtracking table, optionally after a Group served (its own release path), and a handler that serves a nested request while its own is in flight; a request that captures 30-32 parameters (around the pool's release threshold) followed by an ordinary one; the engine also reports a pooled object that is released twice; concurrent (logical threads + happens-before monitor over every heap access): two routers registering/removing in parallel, a router and a Hosts matcher, one router being built and cleaned while another serves, two parallel requests with symbolic parameter values on one quiescent router with and without WithLock",
 		boundsT: "foreign sequences of <= 3 operations, pooled paths <= 8 bytes",
 		outside: "more than two concurrent requests; Groups used concurrently; weak-memory effects beyond the Go memory model's race definition",
 		assume:  []string{"sync.Pool hands a released context to the next request (single-goroutine runtime behaviour between GCs)"},
